@@ -29,6 +29,8 @@ struct LinkState {
     flush_plan: VecDeque<WriteStep>,
     flush_calls: usize,
     flush_releases: usize,
+    flush_waker: Option<Waker>,
+    stall_shutdown: bool,
     inbox: VecDeque<u8>,
     blocked: bool,
     releases: usize,
@@ -216,8 +218,23 @@ impl tokio::io::AsyncWrite for Link {
             Err(false) => Poll::Ready(Err(std::io::Error::from(std::io::ErrorKind::BrokenPipe))),
         }
     }
-    fn poll_flush(self: Pin<&mut Self>, _cx: &mut Context<'_>) -> Poll<std::io::Result<()>> { Poll::Ready(Ok(())) }
-    fn poll_shutdown(self: Pin<&mut Self>, _cx: &mut Context<'_>) -> Poll<std::io::Result<()>> { Poll::Ready(Ok(())) }
+    fn poll_flush(self: Pin<&mut Self>, cx: &mut Context<'_>) -> Poll<std::io::Result<()>> {
+        // a layered transport (TLS, websocket) under back-pressure: the flush stays pending until the controller's `frelease`
+        let mut st = self.0.lock().unwrap();
+        st.flush_calls += 1;
+        match st.flush_plan.front().cloned() {
+            Some(WriteStep::Accept(1)) => {
+                if st.flush_releases > 0 { st.flush_releases -= 1; st.flush_plan.pop_front(); Poll::Ready(Ok(())) }
+                else { st.flush_waker = Some(cx.waker().clone()); Poll::Pending }
+            }
+            Some(WriteStep::Error) => { st.flush_plan.pop_front(); Poll::Ready(Err(std::io::Error::from(std::io::ErrorKind::BrokenPipe))) }
+            Some(_) => { st.flush_plan.pop_front(); Poll::Ready(Ok(())) }
+            None => Poll::Ready(Ok(())),
+        }
+    }
+    fn poll_shutdown(self: Pin<&mut Self>, _cx: &mut Context<'_>) -> Poll<std::io::Result<()>> {
+        if self.0.lock().unwrap().stall_shutdown { Poll::Pending } else { Poll::Ready(Ok(())) }
+    }
 }
 
 struct Shared {
@@ -229,6 +246,7 @@ struct Shared {
     answer: bool,
     refuse: Mutex<usize>,
     connect_delay_ms: u64,
+    stall_shutdown: bool,
 }
 
 impl Shared {
@@ -247,7 +265,7 @@ impl Shared {
             v5: self.v5, wire: Vec::new(), parsed: 0, packets_seen: 0,
             write_plan: std::mem::take(&mut *self.write_plan.lock().unwrap()),
             read_plan: std::mem::take(&mut *self.read_plan.lock().unwrap()),
-            flush_plan: std::mem::take(&mut *self.flush_plan.lock().unwrap()), flush_calls: 0, flush_releases: 0,
+            flush_plan: std::mem::take(&mut *self.flush_plan.lock().unwrap()), flush_calls: 0, flush_releases: 0, flush_waker: None, stall_shutdown: self.stall_shutdown,
             inbox: VecDeque::new(), blocked: false, releases: 0, write_waker: None, read_waker: None, eof: false,
             answer: self.answer, write_calls: 0, read_calls: 0, wlog: Vec::new(), rlog: Vec::new(),
         })));
@@ -327,6 +345,7 @@ pub fn run(head: &str, steps: &str) -> Result<String, String> {
         flush_plan: Mutex::new(get("fplan").unwrap_or("").split(',').filter_map(|t| match t { "b" => Some(WriteStep::Block), "e" => Some(WriteStep::Error), "o" => Some(WriteStep::Accept(0)), "w" => Some(WriteStep::Accept(1)), _ => None }).collect()),
         answer: get("answer").unwrap_or("1") != "0", refuse: Mutex::new(get("refuse").and_then(|x| x.parse().ok()).unwrap_or(0)),
         connect_delay_ms: get("cdelay").and_then(|x| x.parse().ok()).unwrap_or(0),
+        stall_shutdown: get("shutdown") == Some("stall"),
     });
     // durations in ms; `max` is the largest value the builders accept (Duration::MAX)
     let dur = |key: &str, default: u64| -> Duration {
@@ -476,7 +495,7 @@ pub fn run(head: &str, steps: &str) -> Result<String, String> {
                 if !ok { notes.push("waitblocked-timeout".to_string()); }
             }
             "frelease" => {
-                if let Some(l) = shared.current() { l.0.lock().unwrap().flush_releases += 1; }
+                if let Some(l) = shared.current() { let mut st = l.0.lock().unwrap(); st.flush_releases += 1; if let Some(w) = st.flush_waker.take() { w.wake(); } }
             }
             "subto" => {
                 // subto:<ms>: a subscribe with an ack timeout that the broker never answers (threaded client)
